@@ -269,6 +269,14 @@ fn main() {
             rec.extend([ty, 0x03, 0x03, 0x00, p.len() as u8]);
             rec.extend_from_slice(p);
             one(&PLAINTEXT, &rec, sink);
+            // the same bytes as a strict prefix of a longer record: whatever the available part of the
+            // payload looks like (whole messages of any type included), the answer is the missing byte count
+            for k in [1usize, 4, 300] {
+                let l = p.len() + k;
+                rec[3] = (l >> 8) as u8;
+                rec[4] = l as u8;
+                one(&PLAINTEXT, &rec, sink);
+            }
         };
         if i < nshort {
             f(prefix);
@@ -278,6 +286,32 @@ fn main() {
     });
     sink.merge(sd);
     sink.sample(8, || json!({"func":"parse_tls_plaintext","input":"1803030005010009010 2".replace(' ', ""),"note":"payload sweep: complete record, inner length lies"}));
+
+    // (H) truncated records that begin with a whole first message of every one of the 256 handshake types
+    //     (heartbeat types, alert levels) x body sizes 0..4 x 3 body patterns, followed by a second message
+    let sh = par_run(run.threads, 256, |t0, sink| {
+        for ty in [0x16u8, 0x18, 0x15, 0x14, 0x17] {
+            for n in 0..=4usize {
+                for pat in [0x00u8, 0x03, 0xff] {
+                    let mut p: Vec<u8> = match ty {
+                        0x16 => vec![t0 as u8, 0, 0, n as u8],
+                        0x18 => vec![t0 as u8, 0, n as u8],
+                        _ => vec![t0 as u8],
+                    };
+                    p.extend(std::iter::repeat(pat).take(n));
+                    p.extend([0x0e, 0, 0, 0, 0x01, 0, 0]);
+                    for k in [1usize, 2, 7, 16384 - p.len()] {
+                        let l = p.len() + k;
+                        let mut rec = vec![ty, 0x03, 0x03, (l >> 8) as u8, l as u8];
+                        rec.extend_from_slice(&p);
+                        one(&PLAINTEXT, &rec, sink);
+                        one(&RAW_RECORD, &rec, sink);
+                    }
+                }
+            }
+        }
+    });
+    sink.merge(sh);
 
     // (F) the cap does not depend on the version: all 65536 versions x lengths around the cap
     let sf = par_run(run.threads, 256, |k, sink| {
@@ -368,7 +402,7 @@ fn main() {
     let mut cov = Map::new();
     cov.insert("exhaustive".into(), json!(true));
     cov.insert("rule".into(), json!(format!(
-        "(A) all 256 content types x all 65536 declared lengths (quick tier: 12 types with all lengths, the other 244 types with ~800 boundary lengths) at cut points {{0..6, 5+len/2, 5+len-1, 5+len, 5+len+1, 5+len+7}} for parse_tls_encrypted / parse_tls_raw_record; the same for parse_tls_plaintext on 8 content types (complete records only at 76 boundary lengths); (B) every prefix of records of the boundary lengths (middle of long records every 97th byte in quick); (C) all 65536 versions; (D) complete records whose payload is every string of length <= {} over a per-type positional alphabet; (G) SSLv2-compatible ClientHellos (5 versions x 6 cipher-spec lengths x 2 session-id lengths x 3 challenge lengths) and the openings of 10 other protocols, at 45 cut points each; (F) all 65536 versions x 9 declared lengths around the cap x 2 types (truncated buffers); (E) records of 8 lengths x 4 types followed by trailing data such that the buffer size crosses 2^16, 2^17 and 2^20 (+-6 bytes, with and without the record length). Oracle: reference framing (Incomplete iff strict prefix with exact Needed, TooLarge above 2^14+256, exact consumption, header fields, payload and remainder by position) plus the strict record walker. Non-trivial: everything but inputs cut inside the 5-byte header", maxn)));
+        "(A) all 256 content types x all 65536 declared lengths (quick tier: 12 types with all lengths, the other 244 types with ~800 boundary lengths) at cut points {{0..6, 5+len/2, 5+len-1, 5+len, 5+len+1, 5+len+7}} for parse_tls_encrypted / parse_tls_raw_record; the same for parse_tls_plaintext on 8 content types (complete records only at 76 boundary lengths); (B) every prefix of records of the boundary lengths (middle of long records every 97th byte in quick); (C) all 65536 versions; (D) complete records whose payload is every string of length <= {} over a per-type positional alphabet; (D') each of those payloads also as the available part of a longer record (1, 4 and 300 bytes missing); (H) truncated records beginning with a whole first message of each of the 256 handshake / heartbeat / alert type bytes x 5 body sizes x 3 patterns followed by a second message, 4 missing-byte counts; (G) SSLv2-compatible ClientHellos (5 versions x 6 cipher-spec lengths x 2 session-id lengths x 3 challenge lengths) and the openings of 10 other protocols, at 45 cut points each; (F) all 65536 versions x 9 declared lengths around the cap x 2 types (truncated buffers); (E) records of 8 lengths x 4 types followed by trailing data such that the buffer size crosses 2^16, 2^17 and 2^20 (+-6 bytes, with and without the record length). Oracle: reference framing (Incomplete iff strict prefix with exact Needed, TooLarge above 2^14+256, exact consumption, header fields, payload and remainder by position) plus the strict record walker. Non-trivial: everything but inputs cut inside the 5-byte header", maxn)));
     let code = run.finish(
         &sink,
         cov,
